@@ -359,6 +359,13 @@ def main(argv=None):
     # ---- report
     rc = 0
     replay_dir = os.path.join(ROOT, 'evidence', 'replay')
+    if os.path.isdir(replay_dir):                # replay files of earlier runs of THIS property are stale now
+        for fn in os.listdir(replay_dir):
+            if fn.startswith(prop + '-'):
+                try:
+                    os.remove(os.path.join(replay_dir, fn))
+                except OSError:
+                    pass
     violations = 0
     printed = set()
     for cname, o in failed:
